@@ -131,16 +131,18 @@ let () = each_line (fun line ->
              (match key with
               | "top" -> if v = "x" then top := false
               | "files" ->
-                if v = "none" || v = "notlist" then rfiles := None
+                if v = "none" || v = "notlist" || v = "str" || v = "map" then rfiles := None
+                else if v = "empty" then rfiles := Some []
                 else rfiles := Some (List.map (fun x ->
-                    if x = "x" then FNotMap else if x = "n" || x = "s" then FMap MNone
-                    else FMap (MVal (z_of_int (int_of_string x)))) (split_on ',' v))
+                    if x = "x" || x = "xi" || x = "xl" then FNotMap
+                    else if x = "n" || x = "s" || x = "l" || x = "m" then FMap MNone
+                    else FMap (MVal (z_of_string x))) (split_on ',' v))
               | "bf" ->
-                if v = "none" then rbits := BMissing
-                else if v.[0] = 'V' then rbits := BVal (z_of_int (int_of_string (String.sub v 1 (String.length v - 1))))
+                if v = "none" || v = "L" || v = "M" then rbits := BMissing
+                else if v.[0] = 'V' then rbits := BVal (z_of_string (String.sub v 1 (String.length v - 1)))
                 else rbits := BStr (bytes_of_hex (let h = String.sub v 1 (String.length v - 1) in if h = "" then "-" else h))
-              | "unc" -> if v = "none" then runc := None else runc := Some (bytes_of_hex v)
-              | "ts" -> if v = "none" || v = "str" then rts := None else rts := Some (z_of_int (int_of_string v))
+              | "unc" -> if v = "none" || v = "V" || v = "L" then runc := None else runc := Some (bytes_of_hex v)
+              | "ts" -> if v = "none" || v = "str" || v = "L" then rts := None else rts := Some (z_of_string v)
               | _ -> ())) (split_ws rs);
        let r = { r_map = !top; r_files = !rfiles; r_bits = !rbits; r_unc = !runc; r_unc_ts = !rts } in
        let s0 = opened (nat_of_int np) (nat_of_int (List.length files)) in
